@@ -523,7 +523,8 @@ class Report:
               "coverage": self.cov, "assumptions": self.assumptions, "wall_s": round(wall, 2),
               "violations": len(self.violations)}
         self.cov["known_findings_seen"] = {k: len(v) for k, v in self.known.items()}
-        if self.write_evidence:
+        other_tree = os.environ.get("VERIF_REPO") and os.path.realpath(os.environ["VERIF_REPO"]) != os.path.realpath("/repo")
+        if self.write_evidence and not other_tree:      # (a trial against a patched copy must not replace the evidence)
             # areas beyond the listed properties (ids X..) keep their evidence apart from the properties'
             evdir = EVIDENCE if not self.pid.startswith("X") else os.path.join(VERIF, "extras", "evidence")
             os.makedirs(evdir, exist_ok=True)
